@@ -130,9 +130,13 @@ def run(ctx):
             for fac in itertools.product([1, 2], repeat=3):
                 cases.append(("average", rng.choice(["uint8", "uint16"]), (1,) + shp, list(fac), rng.choice([None, 0, 255])))
                 cases.append(("majority", "uint32", (1,) + shp, [rng.choice([1, 2, 3]) for _ in range(3)], None))
+    # always present: more than 65535 distinct labels in one array (label bookkeeping in a narrow type would wrap)
+    cases.append(("majority", "uint32", (1, 42, 42, 42), [2, 2, 2], None))
     reused = {}
     for method, dt, shape, factors, outside in cases:
         a = gen_array(rng, dt, shape)
+        if shape == (1, 42, 42, 42):
+            a = np.random.default_rng(rng.getrandbits(32)).permutation(42 ** 3).astype(dt).reshape(shape)
         if outside == "max":
             outside = float(np.iinfo(dt).max) if dt != "float32" else 3.0e38
         opts = {} if outside is None else {"outside_value": outside}
